@@ -215,17 +215,26 @@ class Valuation:
         self.model = model
         self.relevant = relevant
         self.defaults = {}
+        self.cache = {}
+        self.decls = {}
+        if model is not None:
+            for decl in model.decls():
+                if decl.arity() == 0:
+                    self.decls[decl.name()] = decl
 
     def const(self, name, e):
+        if name in self.cache:
+            return self.cache[name]
         if self.model is not None:
-            d = None
-            for decl in self.model.decls():
-                if decl.name() == name:
-                    d = decl
-                    break
+            d = self.decls.get(name)
             if d is not None:
                 from model.plotfile import z3_to_py
-                return z3_to_py(self.model[d])
+                try:
+                    v = z3_to_py(self.model[d])
+                    self.cache[name] = v
+                    return v
+                except ValueError:
+                    pass
         v = self.defaults.get(name)
         if v is None:
             k = int(hashlib.sha1(name.encode()).hexdigest()[:6], 16)
@@ -237,6 +246,8 @@ class Valuation:
 
     def __call__(self, p):
         t = p.t if core.is_sym(p) else p
+        if z3.is_const(t) and t.decl().kind() == z3.Z3_OP_UNINTERPRETED:
+            return self.const(t.decl().name(), t)       # a plain word: no substitution needed
         consts = core.consts_of(t)
         subs = []
         for name, e in consts.items():
@@ -433,6 +444,8 @@ def _case_entry(args):
     except BaseException as e:      # the harness itself failed
         r = {'errors': ['case %r: %s' % (case_label(case), traceback.format_exc())]}
     r['case_wall'] = time.time() - t0
+    if os.environ.get('VERIF_DEBUG'):
+        sys.stderr.write('case %s: %.1fs\n' % (case_label(case), r['case_wall']))
     return r
 
 
